@@ -556,28 +556,31 @@ fn run_sieve(args: &Args) -> i32 {
     let max_raw = arg_u64(args, "max-raw", if thorough { 400 } else { 40 }) as usize;
     let mut out = Out::create(arg_str(args, "out", "trace.ndjson"));
     let mut rng = rng_for(seed, "c11-sieve");
-    // (bits, algorithm, use_double, threads)
-    let mut runs: Vec<(u32, Algo, bool, usize)> = vec![
-        (60, Algo::Qs, false, 1),
-        (72, Algo::Qs, true, 4),
-        (80, Algo::Mpqs, false, 4),
-        (90, Algo::Mpqs, true, 1),
-        (96, Algo::Siqs, true, 4),
-        (110, Algo::Siqs, false, 1),
+    // (bits, algorithm, use_double, threads, large_factor override: small inputs use no large primes by default)
+    let mut runs: Vec<(u32, Algo, bool, usize, Option<u64>)> = vec![
+        (60, Algo::Qs, false, 1, None),
+        (72, Algo::Qs, true, 4, Some(40)),
+        (80, Algo::Mpqs, false, 4, Some(60)),
+        (96, Algo::Mpqs, true, 1, Some(30)),
+        (100, Algo::Siqs, true, 4, Some(50)),
+        (110, Algo::Siqs, false, 1, None),
+        (128, Algo::Siqs, true, 4, None),
     ];
     if thorough {
         runs.extend([
-            (66, Algo::Mpqs, true, 1),
-            (84, Algo::Qs, true, 1),
-            (100, Algo::Qs, false, 4),
-            (100, Algo::Mpqs, true, 4),
-            (104, Algo::Siqs, true, 1),
-            (110, Algo::Siqs, true, 4),
-            (76, Algo::Siqs, false, 4),
-            (120, Algo::Siqs, true, 4),
+            (66, Algo::Mpqs, true, 1, Some(100)),
+            (84, Algo::Qs, true, 1, Some(20)),
+            (100, Algo::Qs, false, 4, None),
+            (100, Algo::Mpqs, true, 4, None),
+            (104, Algo::Siqs, true, 1, Some(200)),
+            (110, Algo::Siqs, true, 4, None),
+            (76, Algo::Siqs, false, 4, Some(25)),
+            (120, Algo::Siqs, true, 4, None),
+            (140, Algo::Siqs, true, 4, None),
+            (150, Algo::Siqs, false, 4, None),
         ]);
     }
-    for (ri, &(bits, alg, use_double, threads)) in runs.iter().enumerate() {
+    for (ri, &(bits, alg, use_double, threads, large_factor)) in runs.iter().enumerate() {
         let case = format!("sv{}-{:?}-{}b-d{}-t{}", ri, alg, bits, use_double as u8, threads);
         let (p, q) = (random_prime(&mut rng, bits / 2), random_prime(&mut rng, bits - bits / 2));
         let n = p * q;
@@ -586,6 +589,7 @@ fn run_sieve(args: &Args) -> i32 {
             let mut prefs = Preferences::default();
             prefs.verbosity = Verbosity::Silent;
             prefs.use_double = Some(use_double);
+            prefs.large_factor = large_factor;
             prefs.threads = if threads > 1 { Some(threads) } else { None };
             yamaquasi::factor(n, alg, &prefs).map_err(|e| format!("{:?}", e))
         });
@@ -634,7 +638,7 @@ fn run_sieve(args: &Args) -> i32 {
         };
         let by_len = |lo: u64, hi: u64| rels.iter().filter(|(r, _)| r.cyclelen >= lo && r.cyclelen <= hi).count();
         out.ev(json!({"op": "reset", "case": case, "run": {"alg": format!("{:?}", alg), "bits": bits, "use_double": use_double,
-                      "threads": threads, "nd": n.to_string(), "adds": nadd, "kinds": kinds, "published": rels.len(),
+                      "threads": threads, "large_factor": large_factor, "nd": n.to_string(), "adds": nadd, "kinds": kinds, "published": rels.len(),
                       "len1": by_len(1, 1), "len2": by_len(2, 2), "len3plus": by_len(3, u64::MAX),
                       "cycles": last.0, "partial": last.1, "doubles": last.2, "invalid_raws": bad_raws.len(), "result": outcome}}));
         // inputs that are not valid relations (none expected): the spec decides (witness)
